@@ -28,6 +28,10 @@ pub struct Case {
     /// sleep per (command, target), ms
     pub sleeps: Vec<(String, String, u64)>,
     pub timing: String,
+    /// (command, target) pairs for which the target does not define the command (no file): such a
+    /// target starts nothing, but the targets around it still depend on each other through it
+    #[serde(default)]
+    pub undefined: Vec<(String, String)>,
 }
 
 pub fn levels(cfg: &ConfigSpec) -> Vec<usize> {
@@ -138,6 +142,18 @@ pub fn strategy() -> impl Strategy<Value = Case> {
                     sleeps.push((c.clone(), t.path.clone(), ms));
                 }
             }
+            // in a third of the cases the targets in the middle of the dependency order (neither a
+            // leaf dependency nor a top dependent) do not define some of the commands
+            let mut undefined = vec![];
+            if split % 3 == 1 && maxl >= 2 {
+                for (ci, c) in names.iter().enumerate() {
+                    for (ti, t) in config.targets.iter().enumerate() {
+                        if lv[ti] > 0 && lv[ti] < maxl && (ci == 0 || (split as usize >> (ci + ti) % 13) & 1 == 1) {
+                            undefined.push((c.clone(), t.path.clone()));
+                        }
+                    }
+                }
+            }
             Case {
                 config,
                 mode,
@@ -145,6 +161,7 @@ pub fn strategy() -> impl Strategy<Value = Case> {
                 cmd_args,
                 sleeps,
                 timing: timing.to_string(),
+                undefined,
             }
         })
 }
@@ -210,6 +227,7 @@ pub fn strategy_wide(max_width: usize) -> impl Strategy<Value = Case> {
                 cmd_args: names,
                 sleeps,
                 timing: "deps-slower".into(),
+                undefined: vec![],
             }
         })
 }
@@ -278,6 +296,7 @@ pub fn strategy_sparse() -> impl Strategy<Value = Case> {
                 cmd_args: names,
                 sleeps,
                 timing: if random_timing { "random".into() } else { "deps-slower".into() },
+                undefined: vec![],
             }
         },
     )
@@ -308,6 +327,9 @@ pub fn check(case: &Case, w: usize) -> CheckResult {
             },
         );
         sleep_of.insert((c.clone(), t.clone()), *ms);
+    }
+    for k in &case.undefined {
+        beh.remove(k);
     }
     bb::install_simple(&env, cfg, &beh);
     let mut args: Vec<String> = vec!["run".into()];
@@ -467,6 +489,7 @@ pub fn check(case: &Case, w: usize) -> CheckResult {
         .class_if(earlier_slower, "earlier-command-slower")
         .class_if(!case.seq_args.is_empty() && !case.cmd_args.is_empty(), "sequences+commands")
         .class_if(seen_count.values().any(|&n| n > 1), "repeated-command")
+        .class_if(!case.undefined.is_empty(), "middle-targets-without-the-command")
         .class_if(in_run.is_empty(), "empty-run")
         .class_if(in_run.len() > 32, "targets>32")
         .class_if(in_run.len() > 64, "targets>64")
